@@ -125,6 +125,16 @@ def emit(t, kinds):
     o.append("(* terminals the line classifier can assign (extracted from mmd.c) *)")
     o.append("Definition line_kinds : list Z := %s." % zlist(kinds))
     o.append("(* names, for reading: %s *)" % ", ".join("%d=%s" % (k, t["names"][k]) for k in kinds))
+    o.append("")
+    o.append("(* symbol numbers by name (terminals LINE_* and the nonterminal block), and the rule number of every 'block ::= X' *)")
+    for i, n in enumerate(t["names"]):
+        if n.startswith("LINE_"):
+            o.append("Definition K_%s : Z := %d." % (n[5:], i))
+    o.append("Definition NT_block : Z := %d." % t["names"].index("block"))
+    for i, rn in enumerate(t.get("rule_names", [])):
+        m = re.match(r"block ::= ([A-Za-z_0-9]+)$", rn.strip())
+        if m:
+            o.append("Definition R_block_%s : Z := %d." % (m.group(1), i))
     return "\n".join(o) + "\n"
 
 
